@@ -10,6 +10,7 @@ import (
 	"runtime"
 	"sync"
 	"sync/atomic"
+	"time"
 
 	"github.com/SAP/go-dblib/namepool"
 )
@@ -22,6 +23,7 @@ func npMain(args []string) error {
 	seed := fs.Int64("seed", 1, "seed")
 	rounds := fs.Int("rounds", 6, "scenarios")
 	iters := fs.Int("iters", 150, "acquire/release iterations per goroutine")
+	stressMs := fs.Int("stressms", 700, "duration of each untraced stress run (ms)")
 	fs.Parse(args)
 	tr, err := NewTracer(*out)
 	if err != nil {
@@ -130,6 +132,44 @@ func npMain(args []string) error {
 		}
 		wg.Wait()
 		runtime.GOMAXPROCS(old)
+	}
+	// stress: the same in tight loops without a trace line per call (writing the trace serialises the goroutines
+	// and hides interleavings that need two calls inside the pool at the same moment); the harness keeps the set
+	// of held ids itself and only counts: an id handed out while its holder has not released it
+	for _, procs := range []int{2, 4, 16} {
+		old := runtime.GOMAXPROCS(procs)
+		pool := namepool.Pool("s%d")
+		var held sync.Map
+		var dups, ops int64
+		var wg sync.WaitGroup
+		deadline := time.Now().Add(time.Duration(*stressMs) * time.Millisecond)
+		for g := 0; g < 4*procs; g++ {
+			wg.Add(1)
+			go func(g int) {
+				defer wg.Done()
+				defer func() { recover() }()
+				var mine []*namepool.Name
+				for i := 0; time.Now().Before(deadline); i++ {
+					nm := pool.Acquire()
+					if _, loaded := held.LoadOrStore(nm.ID(), g); loaded {
+						atomic.AddInt64(&dups, 1)
+					}
+					atomic.AddInt64(&ops, 1)
+					mine = append(mine, nm)
+					if len(mine) > 1+(i+g)%3 {
+						for _, m := range mine {
+							held.Delete(m.ID())
+							m.Release()
+						}
+						mine = mine[:0]
+					}
+				}
+			}(g)
+		}
+		wg.Wait()
+		runtime.GOMAXPROCS(old)
+		tr.Reset(map[string]interface{}{"driver": "np-stress", "gomaxprocs": procs})
+		tr.Emit(Ev{"ev": "Stress", "procs": procs, "ops": int(ops), "dups": int(dups)})
 	}
 	if err := tr.Close(); err != nil {
 		return err
